@@ -36,7 +36,7 @@ class C02(runner.Check):
   ]
   runs = {'quick': 3200, 'thorough': 40000}
   budget_s = {'quick': 100, 'thorough': 1200}
-  chunk = 20
+  chunk = 40
   probes = ['probe.own-only-answer', 'probe.pool-used', 'probe.over-delivery-queued',
             'probe.short-delivery', 'probe.zero-delivery', 'probe.two-sources', 'probe.three-sources',
             'probe.client-suggest', 'probe.repeat-same-set', 'probe.concurrent-batch']
